@@ -31,3 +31,8 @@ else:
     from twosigma.memento import memento_function as mf  # noqa: F401
 
 REGISTRY = {}
+
+
+def fl(fn):
+    """force_local() clone of a memento function; the identity for anything else (reference execution)"""
+    return fn.force_local() if hasattr(fn, "force_local") else fn
